@@ -421,6 +421,20 @@ def hist_build(case):
     for mol in ('H2O', 'CH4'):
         OpacityCache().add_opacity(fx.TinyOp(mol, fx.WN_GRIDS[4], fx.T_GRIDS[3], fx.P_GRIDS[3],
                                              fx.table(3, 3, 4, 1e-27, salt=('c10h', mol))))
+    if case.get('defaults'):
+        # chemistry built with its documented default fill gases and ratio (nothing passed explicitly)
+        from taurex.data.profiles.chemistry import TaurexChemistry, ConstantGas
+        from taurex.model import TransmissionModel
+        from taurex.contributions import AbsorptionContribution
+        from taurex.data.profiles.temperature import Isothermal
+        chem = TaurexChemistry()
+        for mol, x in (('H2O', 1e-4), ('CH4', 1e-6), ('CO', 1e-3)):
+            chem.addGas(ConstantGas(mol, mix_ratio=x))
+        m = TransmissionModel(nlayers=case['N'], atm_min_pressure=1e-1, atm_max_pressure=1e6, chemistry=chem,
+                              temperature_profile=Isothermal(T=1200.0))
+        m.add_contribution(AbsorptionContribution())
+        m.build()
+        return m
     return fx.build_model({'kind': 'transmission', 'N': case['N'], 'T': ['iso', 1200.0],
                            'fill': [['H2', 'He', 'N2'], [0.17, 0.01]],
                            'gases': [['H2O', ['const', 1e-4]], ['CH4', ['const', 1e-6]], ['CO', ['const', 1e-3]]],
@@ -490,5 +504,6 @@ def explore(ctx):
         hs = rthist.histories(HIST_ALPHABET, 2, HIST_REDUCED, 3)
         ns_ = [3]
     hcases = [{'N': n, 'hist': h} for n in ns_ for h in hs]
+    hcases += [{'N': 3, 'hist': h, 'defaults': True} for h in hs if all(o[0] != 'N2_H2' for o in h) and len(h) <= 2]
     ctx.bounds.update(histories=len(hcases), history_depth=3 if ctx.tier == 'thorough' else 2)
     ctx.run_cases('hist_fn', hcases, phase='histories')
